@@ -8,9 +8,10 @@ from sa import props
 
 def viol(root, pids):
     out = {}
+    P0 = Program(root)
     for pid in pids:
         try:
-            P = Program(root)
+            P = P0
             s = set()
             for rule in props.PROPS[pid]["rules"]:
                 r = rule(P) if not isinstance(rule, tuple) else rule[0](P, **rule[1])
